@@ -16,7 +16,7 @@ RULE = ("case = one pending A/AAAA/PTR request + 1-3 grammar replies (+ final go
         "with the in-flight ID and QR=1 reached the pending request, or a must-ignore reply (wrong ID / QR=0) "
         "was delivered while it was pending; distinct = hash of the case script")
 T_A, T_AAAA, T_PTR, T_CNAME = 1, 28, 12, 5
-SIZES = dict(quick=4800, thorough=400000)
+SIZES = dict(quick=4800, thorough=250000)
 
 
 # ------------------------------------------------------------------ generation
@@ -493,7 +493,7 @@ def meta_from_lines(lines):
 
 
 REG = dict(category="exploration",
-           text="Runtime monitor of the evdns reply path: thousands (quick) / 4e5 (thorough) grammar-generated and mutated DNS replies "
+           text="Runtime monitor of the evdns reply path: ~4.8e3 (quick) / 2.5e5 (thorough) cases of 1-3 grammar-generated and mutated DNS replies "
                 "(wrong ID/QR/opcode/rcode/TC, question echo variants, compression pointers forward/backward/looping/into the header, "
                 "truncation, count and rdlength lies, 0-3 CNAMEs, other classes/types, SOA, arbitrary TCP segmentation, two frames per stream) "
                 "are delivered to a pending A/AAAA/PTR request; an independent RFC 1035 decoder decides from the bytes sent whether the "
